@@ -213,7 +213,7 @@ def covariance_datasets(rng, count):
         break
 
 
-RCA_KINDS = ('balanced', 'unbalanced', 'singleton-chunk', 'unknown-labels', 'unbalanced+unknown')
+RCA_KINDS = ('balanced', 'unbalanced', 'singleton-chunk', 'unknown-labels', 'unbalanced+unknown', 'gapped-ids', 'gapped-ids+unknown')
 
 
 def rca_datasets(rng, count):
@@ -248,6 +248,12 @@ def rca_datasets(rng, count):
         lab += [-1] * n_unknown
       X = np.vstack(pts) * scale
       chunks = np.array(lab)
+      if 'gapped' in kind:
+        # chunk ids need not be contiguous ("chunks[i] == j: point i belongs to chunklet j"): e.g. {0, 3, 7}
+        ids = np.sort(rng.choice(np.arange(3 * nch), size=nch, replace=False))
+        if ids[-1] == nch - 1:
+          ids[-1] += 2
+        chunks = np.where(chunks >= 0, ids[np.maximum(chunks, 0)], -1)
       perm = rng.permutation(len(X))
       X, chunks = X[perm], chunks[perm]
       C = within_chunk_cov(X, chunks)
